@@ -33,6 +33,8 @@ class Shuffle(zope.testrunner.feature.Feature):
             # we can't introspect the seed later for reporting.  This is a
             # simple emulation of what random.Random.seed does anyway.
             self.seed = int(time.time() * 256)  # use fractional seconds
+            # Subprocesses must shuffle with the same seed.
+            runner.options.shuffle_seed = self.seed
 
     def global_setup(self):
         rng = random.Random(self.seed)
